@@ -630,6 +630,83 @@ func c08r3(c *an.Ctx) {
 			}
 		}
 		c.Check(good, "ParseFrame | ok return dominated by length <= len(rem) on the sliced value", c.At(ret), "", "the payload is sliced without the announced length being compared with the bytes available")
+		// every header varint that is read on a way to this return was read completely and without error: from the
+		// call, the return is reachable only through the edge on which its ok is true and the edge on which its error
+		// is nil (a fast path that does not call ReadVarint at all is not concerned)
+		{
+			rv := A(c).objOpt("drpcwire", "ReadVarint")
+			reach := func(from, to *ssa.BasicBlock, skip func(b *ssa.BasicBlock, i int) bool) bool {
+				seen := map[*ssa.BasicBlock]bool{}
+				var walk func(b *ssa.BasicBlock) bool
+				walk = func(b *ssa.BasicBlock) bool {
+					if b == to {
+						return true
+					}
+					if seen[b] {
+						return false
+					}
+					seen[b] = true
+					for i, sc := range b.Succs {
+						if skip(b, i) {
+							continue
+						}
+						if walk(sc) {
+							return true
+						}
+					}
+					return false
+				}
+				return walk(from)
+			}
+			nRV, nGuarded := 0, 0
+			// where this way of returning leaves from (the returns may have been merged into one instruction)
+			target := ret.Block()
+			if rc.At != nil {
+				target = rc.At
+			}
+			an.Instrs(pf, func(in ssa.Instruction) {
+				call, isCall := in.(*ssa.Call)
+				if !isCall || rv == nil || !an.IsCallTo(call.Common(), rv) {
+					return
+				}
+				if !reach(call.Block(), target, func(*ssa.BasicBlock, int) bool { return false }) {
+					return
+				}
+				nRV++
+				okEdge := func(b *ssa.BasicBlock, i int) bool {
+					br, isIf := b.Instrs[len(b.Instrs)-1].(*ssa.If)
+					if !isIf {
+						return false
+					}
+					cond, neg := an.StripNot(br.Cond)
+					ex, isEx := cond.(*ssa.Extract)
+					if !isEx || ex.Tuple != ssa.Value(call) || ex.Index != 2 {
+						return false
+					}
+					return (i == 0) != neg // the edge on which ok is true
+				}
+				errEdge := func(b *ssa.BasicBlock, i int) bool {
+					br, isIf := b.Instrs[len(b.Instrs)-1].(*ssa.If)
+					if !isIf {
+						return false
+					}
+					x, trueNonNil, isTest := nilTestOf(br.Cond)
+					if !isTest {
+						return false
+					}
+					ex, isEx := an.Unwrap(x).(*ssa.Extract)
+					if !isEx || ex.Tuple != ssa.Value(call) {
+						return false
+					}
+					return (i == 0) != trueNonNil // the edge on which the error is nil
+				}
+				if !reach(call.Block(), target, okEdge) && !reach(call.Block(), target, errEdge) {
+					nGuarded++
+				}
+			})
+			c.Check(nGuarded == nRV, "ParseFrame | ok return only after every header varint read on the way was complete and without error", c.At(ret), fmt.Sprintf("%d/%d", nGuarded, nRV),
+				fmt.Sprintf("only %d of the %d ReadVarint results that lead to the ok return are known to be complete (ok) and error-free there: an incomplete or malformed header field is taken as zero and the rest of the input is parsed as if it followed it", nGuarded, nRV))
+		}
 		// Data = x[:length] of the same base and bound
 		dataOK := false
 		an.Instrs(pf, func(in ssa.Instruction) {
